@@ -2,13 +2,16 @@ import AcraModel.KeystoreSec.ConcurrentSeq
 import AcraModel.KeystoreSec.ConcurrentOrder
 import AcraModel.KeystoreSec.ConcurrentRefine
 import AcraModel.KeystoreSec.ConcurrentFresh
+import AcraModel.KeystoreSec.ConcurrentCreate
+import AcraModel.Generated.KeystoreCreate
 /-!
 # C17 — concurrent keystore writers never lose each other's updates
 
 Property theorems only; the model is `KeystoreSec/Concurrent.lean` (handles as programs of back-end
 calls over one shared back end), the invariant proofs are in `KeystoreSec/ConcurrentLemmas.lean` (locks, files, commit log),
-`KeystoreSec/ConcurrentOrder.lean` (snapshot-prefix invariant) and `KeystoreSec/ConcurrentRefine.lean`
-(simulation by the atomic key store).
+`KeystoreSec/ConcurrentOrder.lean` (snapshot-prefix invariant), `KeystoreSec/ConcurrentRefine.lean`
+(simulation by the atomic key store) and `KeystoreSec/ConcurrentCreate.lean` (ring creation, kept `AddKey`s).
+Ring files may be missing at the start (`St.ex`); `OpenKeyRingRW` (`Op.open`) creates them.
 All theorems quantify over **every schedule** (`sched : List Nat`, any interleaving of any number
 of threads at the granularity of single back-end calls) and every program of operations per thread.
 -/
@@ -43,6 +46,22 @@ theorem fact_write_cycle :
     changeKeyStateCalls = ["r.pushTX", "r.store.syncKeyRing", "r.popTX"] ∧
     destroyKeyCalls = ["r.pushTX", "r.pushTX", "r.store.syncKeyRing", "r.popTX", "r.popTX"] := by decide
 
+open Generated.KeystoreCreate in
+/-- Ring creation is the program of back-end calls the model runs for `Op.open`: `OpenKeyRingRW` makes a
+fresh handle object (`newKeyRing`: no keys, current marker `asn1.NoKey` – the model's `emptyRing`) and calls
+`openKeyRing`, which takes the EXCLUSIVE lock first (`Unlock` deferred), pulls the ring under it, and
+pushes the fresh handle's ring only inside `if err != nil { if err == backend.ErrNotExist {…} }` of that
+very pull: the existence check and the creation happen under one lock, with no read/write cycle of its own
+(no shared-lock pre-check) before it. `OpenKeyRing` is a fresh handle object plus the read cycle. -/
+theorem fact_open_cycle :
+    openCycleCalls = ["s.fs.Lock", "defer:s.fs.Unlock", "s.pullRingUpdates", "s.pushNewRingState"] ∧
+    openCreateGuard = ["err != nil", "err == backend.ErrNotExist"] ∧
+    openErrAssigns = ["err=s.fs.Lock()", "err2=s.fs.Unlock()", "err=err2", "err=s.pullRingUpdates()"] ∧
+    openKeyRingRWCalls = ["newKeyRing", "s.openKeyRing"] ∧
+    openKeyRingROCalls = ["newKeyRing", "s.readKeyRing"] ∧
+    newKeyRingData = ["Purpose=asn1.LikelyUTF8String(path)", "Keys=make([]asn1.Key, 0)", "Current=asn1.NoKey"] ∧
+    emptyRing = ⟨[], noKey⟩ := by decide
+
 /-- the model's own constants agree with the regenerated ones -/
 theorem fact_model_constants :
     noKey = Generated.KeystoreSec.asnNoKey ∧ (stPreActive : Int) = Generated.KeystoreSec.asnKeyPreActive ∧
@@ -58,6 +77,8 @@ structure Initial (s : St) : Prop where
   commits : s.commits = []
   idle : ∀ i, (s.h i).pc = .idle
   done : ∀ i, (s.h i).done = []
+  /-- representation convention: the content of a ring file that does not exist is the empty ring -/
+  missing : ∀ p, s.ex p = false → s.cur p = emptyRing
 
 theorem initial_inv (s : St) (h : Initial s) : Inv s.cur s where
   holder := by intro i hi; simp [inCS, h.idle i] at hi
@@ -71,6 +92,8 @@ theorem initial_inv (s : St) (h : Initial s) : Inv s.cur s where
   noNew := by intro p hp; exact absurd (h.new p) hp
   lin := by intro p; simp [commitsOn, h.commits, replay]
   mine := by intro i; simp [commitsBy, h.commits, h.done i, okWrites, h.idle i]
+  miss := by intro p hp; exact ⟨h.missing p hp, by simp [commitsOn, h.commits]⟩
+  crt := by intro i hi; simp [h.idle i] at hi
 
 /-- **Mutual exclusion.** Under every schedule at most one handle is between `Lock` and `Unlock`, and
 while one is, no reader holds the shared lock. -/
@@ -114,7 +137,7 @@ theorem v2_linearizable (s0 : St) (h0 : Initial s0) (sched : List Nat) :
   have hsim0 : Sim s0 (AState.init s0) :=
     ⟨fun _ => rfl, fun _ _ _ => rfl, by intro i hi; simp [h0.idle i] at hi,
      by intro i; simp [resultsOf, AState.init, h0.done i, pending_of_pc (s0.h i) (by simp [h0.idle i])],
-     by simp [committed, AState.init, h0.commits]⟩
+     by simp [committed, AState.init, h0.commits], fun _ => rfl⟩
   have hsim := run_sim s0.cur s0 _ sched hinv0 hsim0
   have hinv := run_inv s0.cur s0 sched hinv0
   exact ⟨fun p => (hsim.cur p).symm, ⟨hsim.commits, hinv.lin⟩, hsim.res, fun i h1 h2 => (hsim.snap i h1 h2).symm⟩
@@ -157,19 +180,17 @@ theorem reader_sees_complete_ring (s0 : St) (h0 : Initial s0) (sched : List Nat)
   have hinv := run_inv s0.cur s0 sched (initial_inv s0 h0)
   have hl := hinv.lin
   generalize run s0 sched = s at *
-  unfold stepCall at hget
-  simp only at hget
-  split at hget
-  · repeat' split at hget
-    all_goals simp at hget
-  · split at hget <;> (simp at hget; obtain ⟨rfl, rfl⟩ := hget; exact hl _)
-  · repeat' split at hget
-    all_goals simp at hget
-  · split at hget <;> simp at hget
-  · simp at hget
-  · simp at hget
-  · simp at hget; obtain ⟨rfl, rfl⟩ := hget; exact hl _
-  · simp at hget
+  have key : ∀ (c : Call), (stepCall s i).2 = c → ∀ p v, c = .get p v → v = s.cur p := by
+    intro c hc p v hcv
+    subst hcv
+    unfold stepCall at hc
+    simp only at hc
+    repeat' split at hc
+    all_goals first
+      | (simp at hc; done)
+      | (simp at hc; obtain ⟨rfl, rfl⟩ := hc; rfl)
+  rw [key _ hget p v rfl]
+  exact hl p
 
 /-- **A stale snapshot is safe.** Whatever snapshot a handle holds when it starts an operation, once
 it has read the ring under the lock its snapshot is the stored ring, and what it then writes is its
@@ -287,7 +308,7 @@ theorem stale_success_is_fresh_success (s0 : St) (h0 : Initial s0) (p : Nat) (hp
   have hsim0 : Sim s0 (AState.init s0) :=
     ⟨fun _ => rfl, fun _ _ _ => rfl, by intro i hi; simp [h0.idle i] at hi,
      by intro i; simp [resultsOf, AState.init, h0.done i, pending_of_pc (s0.h i) (by simp [h0.idle i])],
-     by simp [committed, AState.init, h0.commits]⟩
+     by simp [committed, AState.init, h0.commits], fun _ => rfl⟩
   have h0o : OrdInv p s0 :=
     ⟨hp.incr, hp.noImport, fun i hi _ => hp.snap i hi,
      by intro i _ hc; rcases hc with hc | hc <;> simp [h0.idle i] at hc,
@@ -296,6 +317,122 @@ theorem stale_success_is_fresh_success (s0 : St) (h0 : Initial s0) (p : Nat) (hp
   have hsim := run_sim s0.cur s0 _ sched hinv0 hsim0
   have hpre : SnapPrefix (a.snap i) (a.cur p) := by rw [hsim.cur p]; exact hseq
   exact ⟨hpre, fun op txs r' sn' h => atomicOp_fresh _ _ op txs r' sn' hpre h⟩
+
+/-! ## ring creation -/
+
+/-- **A ring is created only while it is missing – creation overwrites nothing.** Under every schedule,
+whenever a handle is between the `Get` and the `Rename` of a write (`got`/`put`): its operation is
+`OpenKeyRingRW` **iff** the ring file does not exist; and in that case the ring is still missing at this
+very moment, nothing has ever been committed on its path, and what the handle is about to store is the
+empty ring with no transactions. (The `Get` that said `ErrNotExist` and the `Put`/`Rename` are under one
+exclusive lock – `fact_open_cycle` – so no other handle can have created the ring in between.) -/
+theorem creation_only_of_missing_ring (s0 : St) (h0 : Initial s0) (sched : List Nat) (i : Nat) :
+    let s := run s0 sched
+    ((s.h i).pc = .got ∨ (s.h i).pc = .put) →
+      ((∃ rest, (s.h i).todo = .open :: rest) ↔ s.ex (s.h i).path = false) ∧
+      (s.ex (s.h i).path = false →
+        s.cur (s.h i).path = emptyRing ∧ commitsOn s (s.h i).path = [] ∧ (s.h i).txs = []) := by
+  intro s hpc
+  have hinv := run_inv s0.cur s0 sched (initial_inv s0 h0)
+  obtain ⟨h1, h2⟩ := hinv.crt i hpc
+  exact ⟨h1.symm, fun hex => ⟨(hinv.miss _ hex).1, (hinv.miss _ hex).2, h2 hex⟩⟩
+
+/-- a ring on whose path something was committed exists, and a ring that exists keeps existing -/
+theorem committed_ring_exists (s0 : St) (h0 : Initial s0) (sched : List Nat) (p : Nat) :
+    (commitsOn (run s0 sched) p ≠ [] → (run s0 sched).ex p = true) ∧
+    (s0.ex p = true → (run s0 sched).ex p = true) := by
+  have hinv := run_inv s0.cur s0 sched (initial_inv s0 h0)
+  refine ⟨fun hne => ?_, run_ex_mono s0 sched p⟩
+  cases hex : (run s0 sched).ex p with
+  | true => rfl
+  | false => exact absurd (hinv.miss p hex).2 hne
+
+/-- **Every successful `AddKey` is in the stored ring exactly once.** For a ring on which no handle runs
+an import (`OrderedStart`; the ring may exist at the start or be created during the run), under every
+schedule: every operation of a handle of this ring that returned success with a `txAddKey` in its
+transaction list has its key in the stored ring – exactly one key of the stored ring carries the sequence
+number that operation assigned. (Later `SetState`/`DestroyKey` operations change state and material of
+that key, they never remove it; a creating `OpenKeyRingRW` never runs once a key is committed –
+`creation_only_of_missing_ring`.) -/
+theorem add_reflected_exactly_once (s0 : St) (h0 : Initial s0) (p : Nat) (hp : OrderedStart s0 p) (sched : List Nat)
+    (i : Nat) (hi : (s0.h i).path = p) (op : Op) (txs : List Tx) (hop : op ≠ .refresh)
+    (hdone : (op, some txs) ∈ ((run s0 sched).h i).done) (k : Key) (hk : Tx.add k ∈ txs) :
+    ((run s0 sched).cur p).seqs.count k.seq = 1 := by
+  have hinv0 := initial_inv s0 h0
+  have hinv := run_inv s0.cur s0 sched hinv0
+  have h0o : OrdInv p s0 :=
+    ⟨hp.incr, hp.noImport, fun i hi _ => hp.snap i hi,
+     by intro i _ hc; rcases hc with hc | hc <;> simp [h0.idle i] at hc,
+     by intro i _ hc; simp [h0.idle i] at hc⟩
+  have ho := run_ord s0.cur p s0 sched hinv0 h0o
+  have hcp := run_commitPath s0 sched (by intro c hc; simp [h0.commits] at hc)
+  have hak := run_addsKept s0.cur p s0 sched hinv0 h0o (by intro c hc; simp [h0.commits] at hc)
+  -- the successful operation is in the commit log, under this handle's ring path
+  have hmem : txs ∈ commitsBy (run s0 sched) i := by
+    rw [hinv.mine i]
+    apply List.mem_append_left
+    simp only [okWrites, List.mem_filterMap]
+    exact ⟨(op, some txs), hdone, by simp [hop]⟩
+  simp only [commitsBy, List.mem_map, List.mem_filter] at hmem
+  obtain ⟨c, ⟨hc, htid⟩, rfl⟩ := hmem
+  have htid' : c.tid = i := by simpa using htid
+  have hpath : c.path = p := by rw [hcp c hc, htid', run_path, hi]
+  have hin := hak c hc hpath k hk
+  have hnd : ((run s0 sched).cur p).seqs.Nodup := incr_nodup _ ho.incr
+  rw [hnd.count]; simp [hin]
+
+/-- the same for `AddKey` operations by name: the transaction list of a successful `AddKey(d)` is one
+`txAddKey` of a pre-active key with that material, and exactly one key of the stored ring carries its
+sequence number -/
+theorem addKey_reflected_exactly_once (s0 : St) (h0 : Initial s0) (p : Nat) (hp : OrderedStart s0 p) (sched : List Nat)
+    (i : Nat) (hi : (s0.h i).path = p) (d : Nat) (txs : List Tx)
+    (hdone : (Op.addKey d, some txs) ∈ ((run s0 sched).h i).done) :
+    ∃ seq, txs = [.add ⟨seq, stPreActive, d⟩] ∧ ((run s0 sched).cur p).seqs.count seq = 1 := by
+  -- the result is one the sequential run produced: it has the shape `prepare` gives
+  have hlin := (v2_linearizable s0 h0 sched).2.2.1 i
+  have hshape := atomicRun_logShape (AState.init s0) (linTrace s0 sched) (by intro x hx; simp [AState.init] at hx)
+  have hres : (Op.addKey d, some txs) ∈ resultsOf (atomicRun (AState.init s0) (linTrace s0 sched)).log i := by
+    rw [hlin]; exact List.mem_append_left _ hdone
+  simp only [resultsOf, List.mem_map, List.mem_filter] at hres
+  obtain ⟨x, ⟨hx, _⟩, hxe⟩ := hres
+  have hxop : x.1.op = .addKey d := (Prod.mk.inj hxe).1
+  have hxres : x.2 = some txs := (Prod.mk.inj hxe).2
+  rcases hshape x hx txs hxres with ⟨hr, _⟩ | ⟨snap, hprep⟩
+  · rw [hxop] at hr; cases hr
+  · rw [hxop] at hprep
+    simp only [prepare, Option.some.injEq] at hprep
+    refine ⟨snap.nextSeq, hprep.symm, ?_⟩
+    exact add_reflected_exactly_once s0 h0 p hp sched i hi (.addKey d) txs (by simp) hdone ⟨snap.nextSeq, stPreActive, d⟩
+      (by rw [← hprep]; simp)
+
+/-- what the creation theorems need of a ring that does not exist at the start: every handle of the path
+holds the empty snapshot of a fresh handle object (what `newKeyRing` gives; `OpenKeyRingRW` resets it
+anyway) and none of them imports -/
+structure MissingStart (s : St) (p : Nat) : Prop where
+  missing : s.ex p = false
+  snap : ∀ i, (s.h i).path = p → (s.h i).snap = emptyRing
+  noImport : ∀ i, (s.h i).path = p → ∀ op ∈ (s.h i).todo, NoImport op
+
+theorem MissingStart.ordered {s : St} {p : Nat} (h0 : Initial s) (h : MissingStart s p) : OrderedStart s p :=
+  ⟨by rw [h0.missing p h.missing]; decide,
+   fun i hi => by rw [h.snap i hi, h0.missing p h.missing]; exact snapPrefix_refl _, h.noImport⟩
+
+/-- **Linearisability extends to ring creation: no `AddKey` is lost when the ring did not exist at the
+start.** Any number of handles race to create the ring with `OpenKeyRingRW` and add keys to it; under every
+schedule the stored ring is the replay, from the empty ring, of exactly the committed transaction lists
+in linearisation order (the creating rename first – an empty list), its sequence numbers are strictly
+increasing, and every `AddKey` that returned success has its key in the stored ring exactly once. -/
+theorem created_ring_keeps_every_add (s0 : St) (h0 : Initial s0) (p : Nat) (hp : MissingStart s0 p) (sched : List Nat) :
+    let s := run s0 sched
+    replay emptyRing (commitsOn s p) = some (s.cur p) ∧ Incr (s.cur p) ∧
+    ∀ i, (s0.h i).path = p → ∀ d txs, (Op.addKey d, some txs) ∈ (s.h i).done →
+      ∃ seq, txs = [.add ⟨seq, stPreActive, d⟩] ∧ (s.cur p).seqs.count seq = 1 := by
+  intro s
+  have hinv := run_inv s0.cur s0 sched (initial_inv s0 h0)
+  have hl := hinv.lin p
+  rw [h0.missing p hp.missing] at hl
+  exact ⟨hl, (seqnums_unique_increasing s0 h0 p (hp.ordered h0) sched).1,
+    fun i hi d txs hd => addKey_reflected_exactly_once s0 h0 p (hp.ordered h0) sched i hi d txs hd⟩
 
 /-! ## non-vacuity: a concrete race -/
 
@@ -308,7 +445,7 @@ def demo : St where
   h := fun i => ⟨0, ⟨[], noKey⟩, [], if i = 0 then [.addKey 10] else if i = 1 then [.addKey 11, .addKey 12] else [], [], .idle⟩
   commits := []
 
-example : Initial demo := ⟨rfl, rfl, fun _ => rfl, rfl, fun _ => rfl, fun _ => rfl⟩
+example : Initial demo := ⟨rfl, rfl, fun _ => rfl, rfl, fun _ => rfl, fun _ => rfl, fun _ h => nomatch h⟩
 
 /-- thread 1 loses the race with a stale snapshot (its seqnum 1 exists: `errTxKeyExists`), its
 retry with the refreshed snapshot succeeds: the final ring holds 10 then 12 with seqnums 1, 2 -/
@@ -361,7 +498,7 @@ theorem import_overwrite_order_counterexample :
     Initial s0 ∧ Incr (s0.cur 0) ∧ (∀ i, SnapPrefix (s0.h i).snap (s0.cur 0)) ∧
     ((run s0 [0, 0, 0, 0, 0, 1, 1, 1, 1, 1]).cur 0).seqs = [1, 2, 6, 3] ∧
     ¬ Incr ((run s0 [0, 0, 0, 0, 0, 1, 1, 1, 1, 1]).cur 0) := by
-  exact ⟨⟨rfl, rfl, fun _ => rfl, rfl, fun _ => rfl, fun _ => rfl⟩, by decide, fun _ => snapPrefix_refl _, by rfl, by decide⟩
+  exact ⟨⟨rfl, rfl, fun _ => rfl, rfl, fun _ => rfl, fun _ => rfl, fun _ h => nomatch h⟩, by decide, fun _ => snapPrefix_refl _, by rfl, by decide⟩
 
 /-- **One import next to a stale handle breaks the order, too** (same class as the known finding
 `import-race-lost-update`: the existence check of the import runs outside the lock that protects its
@@ -371,7 +508,7 @@ theorem import_stale_add_counterexample :
     let s0 := oneRing ⟨[], noKey⟩ fun i => (⟨[], noKey⟩, if i = 0 then [.importKeys [⟨5, 1, 10⟩, ⟨6, 1, 11⟩] noKey]
                                           else if i = 1 then [.addKey 13] else [])
     Initial s0 ∧ ((run s0 [0, 0, 0, 0, 0, 1, 1, 1, 1, 1]).cur 0).seqs = [5, 6, 1] := by
-  exact ⟨⟨rfl, rfl, fun _ => rfl, rfl, fun _ => rfl, fun _ => rfl⟩, by rfl⟩
+  exact ⟨⟨rfl, rfl, fun _ => rfl, rfl, fun _ => rfl, fun _ => rfl, fun _ h => nomatch h⟩, by rfl⟩
 
 /-- **The prefix hypothesis is needed** (no import involved): a ring with a gap in its numbering
 (1,2,6 – only an import produces one) and a handle whose snapshot 1,2 is not a prefix in the sense of
@@ -381,7 +518,7 @@ theorem stale_gap_counterexample :
       (⟨[⟨1, 1, 10⟩, ⟨2, 1, 11⟩], noKey⟩, if i = 0 then [.addKey 13] else [])
     Initial s0 ∧ Incr (s0.cur 0) ∧ (∀ i, ∀ op ∈ (s0.h i).todo, NoImport op) ∧
     ((run s0 [0, 0, 0, 0, 0]).cur 0).seqs = [1, 2, 6, 3] := by
-  refine ⟨⟨rfl, rfl, fun _ => rfl, rfl, fun _ => rfl, fun _ => rfl⟩, by decide, ?_, by rfl⟩
+  refine ⟨⟨rfl, rfl, fun _ => rfl, rfl, fun _ => rfl, fun _ => rfl, fun _ h => nomatch h⟩, by decide, ?_, by rfl⟩
   intro i op hop
   by_cases hi : i = 0
   · subst hi; simp [oneRing] at hop; subst hop; trivial
@@ -406,5 +543,42 @@ example : SnapPrefix ⟨[⟨1, 1, 10⟩], noKey⟩ ⟨[⟨1, 1, 10⟩, ⟨2, 1, 
 snapshot), its retry as a success -/
 example : (resultsOf (atomicRun (AState.init demo) (linTrace demo [0, 1, 0, 0, 0, 0, 1, 1, 1, 1, 1, 1, 1, 1])).log 1).map (·.2.isSome)
     = [false, true] := by rfl
+
+/-! ## non-vacuity: the creation race -/
+
+/-- two handles open the same not yet existing ring for writing and add a key each -/
+def createRace : St where
+  cur := fun _ => emptyRing
+  new := fun _ => none
+  writer := none
+  readers := []
+  h := fun i => ⟨0, emptyRing, [], if i = 0 then [.open, .addKey 10] else if i = 1 then [.open, .addKey 11] else [], [], .idle⟩
+  commits := []
+  ex := fun _ => false
+
+example : Initial createRace := ⟨rfl, rfl, fun _ => rfl, rfl, fun _ => rfl, fun _ => rfl, fun _ _ => rfl⟩
+
+example : MissingStart createRace 0 :=
+  ⟨rfl, fun _ _ => rfl, by
+    intro i _ op hop
+    by_cases h0 : i = 0
+    · subst h0; simp [createRace] at hop; rcases hop with rfl | rfl <;> trivial
+    · by_cases h1 : i = 1
+      · subst h1; simp [createRace] at hop; rcases hop with rfl | rfl <;> trivial
+      · simp [createRace, h0, h1] at hop⟩
+
+/-- handle 0 creates the ring (`Lock, Get = ErrNotExist, Put, Rename, Unlock`) and adds key 10; handle 1,
+which asked for the lock in between, finds the ring (`Lock, Get, Unlock` – it does NOT create) and adds
+key 11 with the next sequence number: both keys are there -/
+example : (run createRace [0, 0, 1, 0, 0, 0, 0, 0, 0, 0, 0, 1, 1, 1, 1, 1, 1, 1, 1]).cur 0
+    = ⟨[⟨1, 1, 10⟩, ⟨2, 1, 11⟩], noKey⟩ := by rfl
+
+example : ((run createRace [0, 0, 1, 0, 0, 0, 0, 0, 0, 0, 0, 1, 1, 1, 1, 1, 1, 1, 1]).h 1).done
+    = [(.open, some []), (.addKey 11, some [.add ⟨2, 1, 11⟩])] := by rfl
+
+/-- the two linearisation points of `OpenKeyRingRW` in the commit log: the creating rename of handle 0,
+the `Get` of handle 1 that found the ring – both with the empty transaction list -/
+example : ((run createRace [0, 0, 1, 0, 0, 0, 0, 0, 0, 0, 0, 1, 1, 1]).commits).map (fun c => (c.tid, c.txs))
+    = [(0, []), (0, [.add ⟨1, 1, 10⟩]), (1, [])] := by rfl
 
 end AcraModel.Props.C17
